@@ -395,41 +395,45 @@ struct F32Tally {
     failures: Vec<(String, String, String)>, // (request, expected, got)
 }
 
-fn check_bits(bits: u32, h3: bool, t: &mut F32Tally) {
+fn check_bits(bits: u32, h3: bool, t: &mut F32Tally, s: &mut String) {
+    use std::fmt::Write;
     let f = f32::from_bits(bits);
     if !f.is_finite() {
         t.skipped_non_finite += 1;
         return;
     }
     t.checked += 1;
-    let s = f.to_string();
-    let bad = |hyp: &str, text: &str, got: String, t: &mut F32Tally| {
+    s.clear();
+    let _ = write!(s, "{}", f); // the text `f.to_string()` gives (same `Display`), into a reused buffer
+    fn bad(hyp: &str, bits: u32, display: &str, text: &str, got: Option<u32>, t: &mut F32Tally) {
         if t.failures.len() < 20 {
-            t.failures.push((format!("c04.f32 {} bits={:08x} display={} text={}", hyp, bits, s, text), format!("{:08x}", bits), got));
+            let g = got.map(|g| format!("{:08x}", g)).unwrap_or_else(|| "parse-error-or-shape".into());
+            t.failures.push((format!("c04.f32 {} bits={:08x} display={} text={}", hyp, bits, display, text), format!("{:08x}", bits), g));
         }
-    };
-    if !h1_shape(&s) {
-        bad("H1-shape", &s, "shape".into(), t);
+    }
+    if !h1_shape(s) {
+        bad("H1-shape", bits, s, s, None, t);
         return;
     }
-    let rd = |x: &str| x.parse::<f32>().map(|g| format!("{:08x}", g.to_bits())).unwrap_or_else(|_| "parse-error".into());
-    let want = format!("{:08x}", bits);
-    let g = rd(&s);
-    if g != want { bad("H2-display-parse", &s, g, t); }
+    let rd = |x: &str| x.parse::<f32>().ok().map(|g| g.to_bits());
+    let g = rd(s);
+    if g != Some(bits) { bad("H2-display-parse", bits, s, s, g, t); }
     if !s.contains('.') {
-        let sd = format!("{}.", s);
-        let g = rd(&sd);
-        if g != want { bad("H2-display-dot-parse", &sd, g, t); }
+        let n = s.len();
+        s.push('.');
+        let g = rd(s);
+        if g != Some(bits) { bad("H2-display-dot-parse", bits, &s[..n], s, g, t); }
+        s.truncate(n);
     }
     if h3 {
         t.h3_checked += 1;
         for a in 0..2u64 { for z in 0..3u64 { for tz in 0..3u64 { for dz in 0..2u64 {
             let mut tape = Tape::fixed(vec![a, z, tz, dz]);
             let tok = real_tok(s.as_bytes(), &mut tape);
-            let txt = String::from_utf8_lossy(&tok).to_string();
+            let txt = String::from_utf8_lossy(&tok);
             t.h3_variants += 1;
             let g = rd(&txt);
-            if g != want { bad("H3-printer-variant", &txt, g, t); }
+            if g != Some(bits) { bad("H3-printer-variant", bits, s, &txt, g, t); }
         } } } }
     }
 }
@@ -447,10 +451,11 @@ fn f32_stream(seed: u64, thorough: bool) -> Stream {
         let parts: Vec<F32Tally> = std::thread::scope(|sc| {
             let hs: Vec<_> = (0..nthreads).map(|k| sc.spawn(move || {
                 let mut t = F32Tally::default();
+                let mut buf = String::with_capacity(64);
                 let lo = k * span;
                 let hi = ((k + 1) * span).min(1u64 << 32);
                 for b in lo..hi {
-                    check_bits(b as u32, b % 64 == 17, &mut t);
+                    check_bits(b as u32, b % 64 == 17, &mut t, &mut buf);
                 }
                 t
             })).collect();
@@ -468,17 +473,18 @@ fn f32_stream(seed: u64, thorough: bool) -> Stream {
         let stride = (1u64 << 32) / n;
         let mut rng = Rng::derive(seed, "c04.f32", 0);
         let shift = rng.below(stride);
+        let mut buf = String::with_capacity(64);
         for i in 0..n {
-            check_bits((i * stride + shift) as u32, i % 64 == 0, &mut tally);
+            check_bits((i * stride + shift) as u32, i % 64 == 0, &mut tally, &mut buf);
         }
         for &b in &F32_BOUNDARY {
             for s in [0u32, 0x8000_0000] {
-                check_bits(b | s, true, &mut tally);
+                check_bits(b | s, true, &mut tally, &mut buf);
             }
         }
         for _ in 0..20000 {
             let f = gen_f32(&mut rng);
-            check_bits(f.to_bits(), rng.chance(1, 8), &mut tally);
+            check_bits(f.to_bits(), rng.chance(1, 8), &mut tally, &mut buf);
         }
     }
     st.cases = tally.checked;
